@@ -122,3 +122,35 @@ Proof.
   destruct ((0 <? count_nonzero (poll_eval k pf)) || (timeout =? 0)) eqn:E; [reflexivity|].
   destruct (Z.ltb_spec timeout 0); [exact I|]. apply orb_false_iff in E. destruct E as [_ E]. apply Z.eqb_neq in E. lia.
 Qed.
+
+(* a ready entry makes the wait return at once *)
+Lemma ep_scan_some : forall k l m e, In e l -> ep_ready_bits k e <> 0 -> ep_scan k l (S m) <> [].
+Proof. intros k l m e I R H. apply R. apply (ep_scan_nil k l m H e I). Qed.
+
+Lemma epoll_sleep_ready : forall k maxev timeout rot, 1 <= maxev ->
+  (exists e, In e (ep k) /\ ep_ready_bits k e <> 0) ->
+  match k_epoll_sleep k maxev timeout rot with
+  | WReady k1 _ => clock k1 = clock k
+  | WHang => False
+  | _ => True
+  end.
+Proof.
+  intros k maxev timeout rot MX (e & I & R). unfold k_epoll_sleep.
+  set (sorted := sort_ents (ep k)). set (order := rotate _ sorted).
+  destruct (Z.to_nat maxev) as [|m] eqn:MN; [lia|].
+  destruct (ep_scan k order (S m)) as [|ev0 evs0] eqn:SCAN; [|reflexivity].
+  exfalso. apply (ep_scan_some k order m e); [apply In_rotate_inv; apply In_sort_ents; exact I|exact R|exact SCAN].
+Qed.
+
+Lemma poll_sleep_ready : forall k pf timeout,
+  (exists p, In p pf /\ poll_revents k (fst p) (snd p) <> 0) ->
+  match k_poll_sleep k pf timeout with PReady k1 _ => clock k1 = clock k | PHang => False end.
+Proof.
+  intros k pf timeout (p & I & R). unfold k_poll_sleep.
+  assert (C : 0 <? count_nonzero (poll_eval k pf) = true).
+  { apply Z.ltb_lt. unfold count_nonzero, poll_eval.
+    assert (IN : In (poll_revents k (fst p) (snd p)) (filter (fun x => negb (x =? 0)) (map (fun p => poll_revents k (fst p) (snd p)) pf))).
+    { apply filter_In. split; [apply in_map_iff; exists p; auto|]. apply negb_true_iff. apply Z.eqb_neq. exact R. }
+    destruct (filter _ _); [destruct IN|cbn [length]; lia]. }
+  rewrite C. reflexivity.
+Qed.
